@@ -473,7 +473,14 @@ impl World {
         side.last_fp = side.cache().verif_fingerprint();
         self.sides.push(side);
         let idx = self.sides.len() - 1;
+        let nfails = self.fails.len();
         let cobs = self.observe_side(idx, Level::Full, false);
+        // whatever is wrong with a fresh clone is (also) C14's business
+        for f in self.fails.iter_mut().skip(nfails) {
+            if !f.has("C14") {
+                f.tags.push("C14");
+            }
+        }
         if let Some(cobs) = cobs {
             let src = self.sides[self.active].last_obs.clone();
             let src = &src;
